@@ -82,7 +82,18 @@ pub trait PostConversionLinter {
         Ok(())
     }
 
-    fn visit_dim(&mut self, _dim_list: &DimList) -> Result<(), LintErrorPos> {
+    fn visit_dim(&mut self, dim_list: &DimList) -> Result<(), LintErrorPos> {
+        // visit the bounds of array dimensions
+        for dim_var_pos in dim_list.variables.iter() {
+            if let DimType::Array(array_dimensions, _) = dim_var_pos.element.var_type() {
+                for array_dimension in array_dimensions.iter() {
+                    if let Some(lbound) = &array_dimension.lbound {
+                        self.visit_expression(lbound)?;
+                    }
+                    self.visit_expression(&array_dimension.ubound)?;
+                }
+            }
+        }
         Ok(())
     }
 
@@ -157,8 +168,19 @@ pub trait PostConversionLinter {
         assignment: &Assignment,
         _name_pos: Position,
     ) -> Result<(), LintErrorPos> {
-        let (_, v) = assignment.into();
+        let (name, v) = assignment.into();
+        self.visit_assignment_target(name)?;
         self.visit_expression(v)
+    }
+
+    /// Visits the expressions that are nested in the target of an assignment
+    /// (the subscripts of an array element).
+    fn visit_assignment_target(&mut self, target: &Expression) -> Result<(), LintErrorPos> {
+        match target {
+            Expression::ArrayElement(_, indices, _) => self.visit_expressions(indices),
+            Expression::Property(left, _, _) => self.visit_assignment_target(left),
+            _ => Ok(()),
+        }
     }
 
     fn visit_for_loop(&mut self, f: &ForLoop) -> Result<(), LintErrorPos> {
